@@ -42,10 +42,12 @@ def run(tier, replay):
         ("mutation Len16UpTo65536", "MC_WsFrame_mut_Len16UpTo65536.cfg", 1, "sens", "invariant"),
         ("mutation KeyAlways", "MC_WsFrame_mut_KeyAlways.cfg", 1, "sens", "invariant"),
         ("mutation UnmaskShifted", "MC_WsFrame_mut_UnmaskShifted.cfg", 2, "sens", "invariant"),
+        ("mutation Len64Low32 (64-bit length narrowed)", "MC_WsFrame_mut_Len64Low32.cfg", 2, "sens", "invariant"),
+        ("mutation Mask64Dropped (MASK bit lost in the 64-bit form)", "MC_WsFrame_mut_Mask64Dropped.cfg", 1, "sens", "invariant"),
     ]
 
     def trace_job():
-        p = run_bin(ws, ["random", "3000" if thorough else "400", "1048576"])
+        p = run_bin(ws, ["random", "3000" if thorough else "400", "5242880" if thorough else "1048576"])
         if p.returncode != 0:
             raise vlib.ToolError("wsframe random failed: " + p.stderr[-1000:])
         with open(tr, "w") as f:
@@ -88,10 +90,13 @@ def run(tier, replay):
     if not gen:
         raise vlib.ToolError("generation printed nothing")
 
-    order = {"xor": 0, "frame": 1, "hdr2": 2, "wire": 3}
+    order = {"xor": 0, "frame": 1, "bigframe": 2, "huge": 3, "hdr2": 4, "wire": 5}
+    if not thorough:
+        gen = [x for x in gen if x["k"] != "bigframe" or x["len"] <= 3145729]
     vectors = sorted(gen, key=lambda x: order[x["k"]])
     counts = {k: sum(1 for x in vectors if x["k"] == k) for k in order}
-    if counts["xor"] != 256 or counts["hdr2"] != 256 or counts["frame"] != 2 * 8 * 6 * 6 * 11:
+    if counts["xor"] != 256 or counts["hdr2"] != 256 or counts["frame"] != 2 * 8 * 6 * 6 * 11 or counts["huge"] != 24 \
+            or counts["bigframe"] != (18 if thorough else 12):
         raise vlib.ToolError("unexpected vector counts %s" % counts)
 
     def replay_lines(lines):
@@ -129,7 +134,7 @@ def run(tier, replay):
     ctx.add_part("vectors", **counts)
 
     recs, t = trace_result
-    ctx.add_tlc("trace validation of %d random executions (frames up to 1 MiB, byte strings)" % len(recs), t)
+    ctx.add_tlc("trace validation of %d random executions (frames up to %d MiB under bounded reads, byte strings)" % (len(recs), 5 if thorough else 1), t)
     ctx.cov["evaluations"] += len(recs)
     ctx.cov["traces_validated_against_impl"] += len(recs)
     big = sum(1 for r in recs if r["k"] == "frame" and r["f"]["len"] > 65535)
@@ -145,7 +150,11 @@ def run(tier, replay):
     if ctx.violations:
         # a broken tree: report what was found; the binding self-test presumes a clean run
         return ctx.finish()
-    # binding self-test
+    # binding self-test - only after a clean validation: on a broken tree the verdict is the violation above
+    if ctx.violations:
+        if os.path.exists(tr):
+            os.remove(tr)
+        return ctx.finish()
     xor = [x for x in vectors if x["k"] == "xor"]
     c1 = copy.deepcopy(next(x for x in vectors if x["k"] == "frame" and x["len"] == 126 and x["mask"] == 1))
     c1["hdr"][2] ^= 1                      # extended length 126 -> 382
@@ -156,9 +165,14 @@ def run(tier, replay):
     c4 = copy.deepcopy(next(x for x in vectors if x["k"] == "hdr2" and x["b0"] == 0x83))
     c4["b1s"][0]["need"] = 0
     c4["b1s"][0]["two"] = "ok"             # claims the reserved opcode 3 is accepted
-    st = replay_lines(xor + [c1, c2, c3, c4])
-    got = (st["parts"]["frames"]["mismatches"], st["parts"]["concrete_wires"]["mismatches"], st["parts"]["two_byte_headers"]["mismatches"])
-    if got[0] < 2 or got[1] != 1 or got[2] < 1:
+    c5 = copy.deepcopy(next(x for x in vectors if x["k"] == "bigframe" and x["len"] == 4097 and x["mask"] == 1))
+    c5["key"][3] ^= 1                      # one key octet differs from the header: every fourth payload octet is wrong
+    c6 = copy.deepcopy(next(x for x in vectors if x["k"] == "huge"))
+    c6["exp"] = "InvalidOpcode"
+    st = replay_lines(xor + [c1, c2, c3, c4, c5, c6])
+    got = (st["parts"]["frames"]["mismatches"], st["parts"]["concrete_wires"]["mismatches"], st["parts"]["two_byte_headers"]["mismatches"],
+           st["parts"]["large_frames_bounded_reads"]["mismatches"], st["parts"]["huge_length_fields"]["mismatches"])
+    if got[0] < 2 or got[1] != 1 or got[2] < 1 or got[3] < 2 or got[4] != 12:
         raise vlib.ToolError("binding self-test: corrupted vectors were not rejected as expected: %s" % (got,))
     small = copy.deepcopy(recs[:60])
     i = next(i for i, r in enumerate(small) if r["k"] == "frame" and len(r["hdr"]) >= 2)
@@ -171,7 +185,8 @@ def run(tier, replay):
     os.remove(tr)
 
     ctx.cov["rule"] = ("every frame of FIN x RSV1-3 x 6 opcodes x mask {off, on x 5 keys} x 11 length classes with the payload expanded from a seed, "
-                       "all 65536 two-byte headers each with a bare / complete / truncated remainder, TLC-decoded concrete wires; each under every split point "
+                       "all 65536 two-byte headers each with a bare / complete / truncated remainder, TLC-decoded concrete wires, 4 KiB-boundary and multi-MiB frames under reads of at most 1..65537 bytes, "
+                       "24 headers with 64-bit length fields 2^24, 2^31-1 .. 2^64-1 followed by 0 .. 1 MiB, consecutive different frames on one reader; each under every split point "
                        "(< 300 bytes) or seeded random splits, every (or sampled) truncation, and back to back; non-trivial = distinct frames with a non-empty "
                        "payload, distinct valid headers, distinct wires that decode")
     ctx.cov["exhaustive"] = True
